@@ -262,3 +262,26 @@ pub fn sdd_canon_string(p: SddPtr) -> String {
     rec(p, &mut HashMap::new(), &mut s);
     s
 }
+
+#[cfg(test)]
+mod tests {
+    use super::*;
+    use rsdd::repr::VarLabel;
+
+    #[test]
+    fn walks_hand_built_nodes() {
+        // x1 ? T : F  and  x0 ? !(x1) : x1  (an xor with a complemented high edge)
+        let x1 = BddNode::new(VarLabel::new(1), BddPtr::PtrFalse, BddPtr::PtrTrue);
+        let top = BddNode::new(VarLabel::new(0), BddPtr::Reg(&x1), BddPtr::Compl(&x1));
+        let mut w = BddWalker::new(2);
+        let t = w.tt(BddPtr::Reg(&top));
+        assert_eq!(t, Tt::var(2, 0).xor(&Tt::var(2, 1)));
+        assert_eq!(w.tt(BddPtr::Compl(&top)), t.not());
+        for a in 0..4usize {
+            assert_eq!(bdd_eval_path(BddPtr::Reg(&top), a), t.get(a));
+            assert_eq!(bdd_eval_path(BddPtr::Compl(&top), a), !t.get(a));
+        }
+        assert_eq!(bdd_nodes(BddPtr::Reg(&top)).len(), 2);
+        assert_ne!(bdd_canon_string(BddPtr::Reg(&top)), bdd_canon_string(BddPtr::Compl(&top)));
+    }
+}
